@@ -7,9 +7,9 @@ Local Open Scope Z_scope.
    else it holds, exactly one Channel.CloseOk is written (the connection being
    up), consumers and undelivered frames are dropped, the channel is CLOSED. *)
 Theorem C11_broker_close : forall s c v code x,
-  get_chan (s_chans s) c = Some x -> s_conn s <> CLOSED ->
+  get_chan (s_chans s) c = Some x -> s_conn s <> CLOSED -> s_sendfail s = false ->
   let s' := close_channel s c v code in
-  s_out s' = {| o_chan := c; o_name := WChCloseOk; o_str := [] |} :: s_out s /\
+  s_out s' = {| o_chan := c; o_name := WChCloseOk; o_str := []; o_sent := true |} :: s_out s /\
   exists v', get_chan (s_chans s') c = Some v' /\
     c_state v' = CLOSED /\ c_tags v' = [] /\ c_inbound v' = [] /\
     c_errs v' = c_errs v ++ [{| e_kind := EChan; e_code := Some code |}].
@@ -40,7 +40,7 @@ Print Assumptions C11_app_close_leaves_closed.
 Theorem C11_app_close_cancels_consumers : forall sc s c v s' v' sc',
   c_state v <> CLOSED ->
   do_stop sc s c v = (s', v', Ok tt, sc') ->
-  (forall t, In t (c_tags v) -> In {| o_chan := c; o_name := WCancel; o_str := t |} (s_out s')) /\
+  (forall t, In t (c_tags v) -> handed s' c WCancel t) /\
   c_tags v' = [].
 Proof. exact stop_cancels_all. Qed.
 Print Assumptions C11_app_close_cancels_consumers.
